@@ -823,7 +823,7 @@ theorem SInv_step {cfg : Cfg} (wf : WF cfg) {s s' : State} {l : Label} (h : SInv
       exact SInv_addIdle h2 _
   | takeSerial q j rest P hP hq hidle hsub =>
       exact SInv_takeSerial wf h hP hq hsub (P' := { P with queue := rest, idle := P.idle - 1 })
-        rfl rfl rfl rfl rfl (by unfold firstPc; split <;> simp) rfl rfl
+        rfl rfl rfl rfl rfl (by simp [firstPc]) rfl rfl
   | takeSub q j rest P q' hP hq hidle hsub =>
       exact SInv_takeSub wf h hP hq hsub (P' := { P with queue := rest, idle := P.idle - 1 })
         rfl rfl rfl rfl rfl rfl rfl
@@ -837,15 +837,16 @@ theorem SInv_step {cfg : Cfg} (wf : WF cfg) {s s' : State} {l : Label} (h : SInv
   | cbFail i hi hf =>
       refine SInv_finish (s := { s with log := s.log ++ [i], cbLock := false
                                         cbIn := if (cfg.pool (cfg.poolOf i)).innerCb
-                                          then s.cbIn.set (cfg.poolOf i) false else s.cbIn })
-        (SInv_congr h rfl rfl rfl rfl (by simp only; split <;> simp) (fun _ => rfl) (fun _ => rfl))
+                                          then s.cbIn.set (cfg.poolOf i) false else s.cbIn
+                                        tLocks := s.tLocks.set (cfg.obj i) false })
+        (SInv_congr h rfl rfl (by simp) rfl (by simp only; split <;> simp) (fun _ => rfl) (fun _ => rfl))
         false hi (by simp) (by simp)
   | cbOk i hi hf =>
-      exact SInv_congr (SInv_set_task (x := .tAcq) h hi (by simp) (by simp)) rfl rfl rfl rfl
+      exact SInv_congr (SInv_set_task (x := .bAcq) h hi (by simp) (by simp)) rfl rfl rfl rfl
         (by simp only; split <;> simp) (fun _ => rfl) (fun _ => rfl)
   | tAcq i hi hl =>
-      exact SInv_congr (SInv_set_task (x := .bAcq) h hi (by simp) (by simp)) rfl rfl (by simp) rfl rfl
-        (fun _ => rfl) (fun _ => rfl)
+      exact SInv_congr (SInv_set_task (x := afterT cfg (cfg.poolOf i)) h hi (by simp) (by simp)) rfl rfl
+        (by simp) rfl rfl (fun _ => rfl) (fun _ => rfl)
   | bTry i p hi hp =>
       have hp1 : p ≠ .notStarted := by rcases hp with rfl | rfl <;> simp
       have hp2 : p ≠ .done true := by rcases hp with rfl | rfl <;> simp
